@@ -44,7 +44,7 @@ reg(Prop("C13",
 reg(Prop("C27",
          [("const", gx.g_const, 1)],
          lambda c: True,
-         "NewConstUint/NewConstInt/ConstFrom*/ConstUint/WithWidth/NewConst over all 8 integer types, widths 1..20, "
+         "NewConstUint/NewConstInt/ConstFrom*/ConstUint/WithWidth/NewConst over all 8 integer types, widths 1..20 and wide widths up to 255 (32, 33, 64, 65, 96, 128, ...), "
          "values at and around the signed/unsigned limits of the width and of the type; every case non-trivial",
          3000, 200000))
 
